@@ -36,6 +36,8 @@ func quotient(root map[string]any, at any, args ...any) any {
 			switch {
 			case i == 0:
 				iq = ii
+			case isFloat && ii == 0:
+				panic(fmt.Errorf("divide by zero"))
 			case isFloat:
 				fq /= float64(ii)
 			default:
@@ -47,6 +49,8 @@ func quotient(root map[string]any, at any, args ...any) any {
 			case i == 0:
 				fq = f
 				isFloat = true
+			case f == 0.0:
+				panic(fmt.Errorf("divide by zero"))
 			case isFloat:
 				fq /= f
 			default:
